@@ -180,6 +180,12 @@ def search_witness(sfs, L, SK, budget):
     return None, True
 
 
+def _short_worker(state, job):
+    sfs, L, SK, budget = job
+    ids, complete = search_witness(sfs, L, SK, budget)
+    return {"ids": ids, "complete": complete}
+
+
 def _search_worker(state, job):
     sfs, L, SK, budget = job
     ids, complete = search_witness(sfs, L, SK, budget)
@@ -391,6 +397,25 @@ def check(run):
         else:
             c["search"] = {"ids": None, "complete": False, "culprit": None, "status": status}
     run.log("witness candidates: %d searches (%.0fs)" % (len(search_jobs), time.time() - t0))
+    # ---- a realizing sequence SHORTER than the published min_length?  Only the bounds component can be wrong (the
+    # occurrence count minsize is a proved lower bound), so the search runs where it decides min_length.
+    t0 = time.time()
+    short_jobs, short_idx = [], []
+    for i, c in enumerate(cases):
+        s = c["sfs"]
+        ml = s.get("min_length")
+        if c["origin"] == "hand" or ml is None or not (s.get("min_length_bounds", 0) > s.get("min_length_instrs", 0)):
+            continue
+        if 1 <= ml <= (8 if thorough else 7) and len(s["user_instrs"]) <= 10:
+            short_jobs.append((s, ml - 1, s["max_sk_sz"], budget))
+            short_idx.append(i)
+    rs = gasol.pmap(_short_worker, short_jobs, timeout=60 if thorough else 25, mem_gb=6)
+    nshort = 0
+    for i, (status, val) in zip(short_idx, rs):
+        if status == "ok" and val.get("ids") is not None:
+            cases[i]["cands"]["s"] = val["ids"]
+            nshort += 1
+    run.log("shorter-than-min_length searches: %d (found %d) (%.0fs)" % (len(short_jobs), nshort, time.time() - t0))
     # ---- Coq
     jobs = []
     for c in cases:
@@ -434,7 +459,7 @@ def check(run):
             realizing.append(("witness:" + str(c.get("witness_src")), c["witness"], r["witness"][1]))
         for lab, (v, n) in r["others"].items():
             if v is None:
-                realizing.append(({"g": "greedy", "o": "original"}[lab], c["cands"][lab], n))
+                realizing.append(({"g": "greedy", "o": "original", "s": "search below min_length"}[lab], c["cands"][lab], n))
         ml = s.get("min_length")
         if ml is not None and realizing:
             stats["min_length_compared"] += 1
@@ -480,8 +505,10 @@ def check(run):
         present = set(i["disasm"] for i in s["user_instrs"])
         dropped3 = any(op in ("ADDMOD", "MULMOD") and op not in present
                        for op in str(s.get("original_instrs", "")).split())
+        rules = [str(x) for x in (s.get("rules") or [])]
+        rule_class = "none" if not rules else ("fold-only" if all(x.startswith("EVAL") for x in rules) else "rewrite")
         key = {"check": "bounds_feasible", "bound": culprit, "rules_applied": bool(s.get("rules_applied")),
-               "dead_3ary_dropped": dropped3}
+               "dead_3ary_dropped": dropped3, "rule_class": rule_class}
         what = ("no sequence realizes the specification within init_progr_len=%d, max_sk_sz=%d (%s; min_length_instrs=%s); "
                 "block %r opts %s rules %s" % (L, SK, cert, s.get("min_length_instrs"), s.get("original_instrs"),
                                                c["opts"], s.get("rules")))
